@@ -66,9 +66,11 @@ def ptrForm (k : Nat) (form : PtrForm) (p : Nat) (n : Int) (s : Nat) : Option (N
 
 /-! ## `check_range_doesnt_cross_app_sbx_boundary` -/
 
-/-- start non-null and last byte `(start + size - 1) mod 2^64` in the same sandbox as the first -/
+/-- start non-null, the last byte `(start + size - 1) mod 2^64` does not precede the first (no
+wrap-around; skipped for an empty range) and lies in the same sandbox as the first -/
 def checkRange (k p size : Nat) : Bool :=
-  p != 0 && sameSbx k p ((p + size + W64 - 1) % W64)
+  let e := (p + size + W64 - 1) % W64
+  p != 0 && (size == 0 || decide (p ≤ e)) && sameSbx k p e
 
 /-! ## Array branch of `operator[]` -/
 
